@@ -54,3 +54,22 @@ def iroot (n k : Nat) : Nat :=
 def isKthPower (n k : Nat) : Bool := (iroot n k) ^ k = n
 
 end NTV.Spec.Elem
+
+namespace NTV.Spec.Elem
+/-- one strong-probable-prime test of odd n > 2 to base a, written from the definition:
+n − 1 = d·2^c, passes iff a^d ≡ 1 or a^(d·2^j) ≡ −1 for some 0 ≤ j < c -/
+def sprp (n a : Nat) : Bool :=
+  let c := (List.range (n.log2 + 1)).foldl (fun acc j => if (n - 1) % 2 ^ (j + 1) = 0 then j + 1 else acc) 0
+  let d := (n - 1) / 2 ^ c
+  powMod a d n = 1 % n || (List.range c).any (fun j => powMod a (d * 2 ^ j) n = n - 1)
+
+/-- deterministic primality: trial division below 2^32, the 12-base Miller–Rabin test below 2^64
+(Sorenson–Webster: exact below 3.3·10^24), `none` above -/
+def isPrimeRef (n : Nat) : Option Bool :=
+  if n < 2 then some false
+  else if n < 4 then some true
+  else if n % 2 = 0 then some false
+  else if n < 2 ^ 32 then some (isPrimeNat n)
+  else if n < 2 ^ 64 then some ([2, 3, 5, 7, 11, 13, 17, 19, 23, 29, 31, 37].all (fun a => sprp n a))
+  else none
+end NTV.Spec.Elem
